@@ -54,6 +54,50 @@ def switch_after(fn, t):
     return None
 
 
+def register_side_iterator_form(c, facts, R, ac, emit_names):
+    """`spec.refs.iter().filter(|(name, _)| self.maybe_inline(name).is_none()).map(|(name, s)| (name.untagged(), ..)).collect()`:
+    the same three obligations as for the loop form, read from the two closures.  Returns True when the form was recognised
+    (obligations reported), False otherwise."""
+    names_top = [P.strip(callee_of(t)['def']).split('::')[-1] for b, t in ac.calls() if callee_of(t)]
+    if 'collect' not in names_top or 'filter' not in names_top or not ({'map', 'filter_map'} & set(names_top)):
+        return False
+    flt = mp = None
+    for cl in facts.closures_of(ac):
+        if P.call_blocks(cl, 'Builder::maybe_inline'):
+            flt = cl
+        for b, blk in cl.blocks():
+            for s in blk['stmts']:
+                if s['s'] == 'assign' and s['place']['l'] == 0 and not s['place']['proj'] and s['rv']['r'] == 'aggr' and s['rv'].get('ak') == 'tuple':
+                    mp = (cl, s)
+    if flt is None or mp is None:
+        return False
+    fidx = MF.defs_index(flt)
+    rs = MF.slice_back(flt, 0, fidx)
+    rnames = [P.strip(n).split('::')[-1] for n, _, _ in rs['calls']]
+    negated = any(s['s'] == 'assign' and s['rv']['r'] == 'unop' and s['rv'].get('op') == 'Not' and s['place']['l'] in rs['locals'] for b, blk in flt.blocks() for s in blk['stmts'])
+    if 'is_none' in rnames and 'maybe_inline' in rnames and not negated and not (set(rnames) & {'is_some'}):
+        c.ok(R, {'all_components': 'keeps exactly the entries for which maybe_inline(name) is None (filter closure)'})
+    else:
+        c.bad(R, 'all_components:polarity', 'all_components does not register a component exactly when maybe_inline(name) is None: a $ref can dangle or an inlined schema is registered')
+    cl, s = mp
+    midx = MF.defs_index(cl)
+    kop = s['rv']['ops'][0]
+    kn = {P.strip(n) for n, _, _ in MF.slice_back(cl, kop['l'], midx)['calls']} if 'l' in kop else set()
+    NEUTRAL = ('fmt::', 'hint::must_use', 'IndexMap::iter', 'IntoIterator::into_iter', 'Iterator::next', 'Clone::clone', 'ToString::to_string', 'ToOwned::to_owned', 'Deref::deref', 'AsRef::as_ref', 'Borrow::borrow', 'From::from', 'Into::into')
+    tr_emit = sorted(n for n in emit_names if not any(x in n for x in NEUTRAL))
+    tr_reg = sorted(n for n in kn if not any(x in n for x in NEUTRAL))
+    if any(n.endswith('Ident::untagged') for n in kn) and tr_emit == tr_reg:
+        c.ok(R, {'component key': 'name.untagged() (same key function as the $ref text)', 'functions applied on both sides': tr_reg})
+    else:
+        c.bad(R, 'component-key-function-differs', 'components are registered under a key computed by %s but the $ref text is computed by %s: a $ref whose name is changed by one side only dangles' % (tr_reg, tr_emit))
+    extra = sorted(set(names_top) & {'take', 'skip', 'take_while', 'skip_while', 'step_by', 'rev', 'filter_map'} ) + (['filter x%d' % names_top.count('filter')] if names_top.count('filter') > 1 else [])
+    if extra:
+        c.bad(R, 'all_components:extra-filter', 'the registration of a component passes through %s besides the is_none filter' % extra)
+    else:
+        c.ok(R, {'all_components': 'iterates spec.refs, one filter (is_none), one map, collect'})
+    return True
+
+
 def r1_ref_close(c, facts):
     R = c.rule('C03.R1', 'REF-CLOSE: emit side and register side use one inline predicate and one key function')
     sites = aggr_sites(facts, 'oal_openapi', 'ReferenceOr', 'Reference')
@@ -95,6 +139,8 @@ def r1_ref_close(c, facts):
     ins = P.call_blocks(ac, 'IndexMap::insert', 'IndexMap::insert_full')
     mi2 = P.call_blocks(ac, 'Builder::maybe_inline')
     if not ins:
+        if register_side_iterator_form(c, facts, R, ac, names):
+            return
         c.bad(R, 'all_components:no-insert', 'all_components no longer registers components')
         return
     if not mi2:
